@@ -29,6 +29,9 @@ CHECKS = {
  "C07": ("exploration", "runtime monitor: write-once rules checked on the logged storage operations (with pre/post file state) of histories and of two racing backups under the deterministic scheduler",
          "Every mutating storage operation of every backup, interrupted/torn/resumed backup, delete and gc in generated histories is logged with the target's state before and after and checked against the write-once rules; two concurrent backups are run under all schedules to preemption bound 1, a grid (thorough: all) of bound 2 and random schedules, with the same rules on the merged log plus single-owner bands and exactly-one-winner.",
          "Trusted: interceptor sees every storage effect; pre/post states read while the issuing actor is the only one running; E2 reference scan.", "3 C07"),
+ "C08": ("exploration", "runtime monitor: executable stitching rule compared with the real listing on harness-written archives, bounded-exhaustive + random",
+         "Every arrangement of complete/incomplete/hunk-less/absent bands over small path alphabets and every hunk split (exhaustive for (B=2,P=4) and (B=3,P=3); thorough adds (B=4,P=2) and (B=3,P=4)) is written by the harness's own format writer and listed by the real code for every N; the result must equal an executable statement of the stitching rule, be strictly increasing, and finish within an operation budget; filter variants on a sample; random larger archives with removed hunks.",
+         "Trusted: fmt06 writer/reader, oracle::stitch_model and oracle::apath_cmp as restatements of the documented rules. Termination is decided as bounded progress (operation budget).", "3 C08"),
  "C11": ("exploration", "runtime monitor: executable order/validity model compared with Apath on exhaustive small alphabets + emitters observed on generated trees",
          "All pairs/triples of valid paths over two alphabets up to depth 4/3 and every string over a 13-component alphabet (exhaustive within the bound) are compared against an independent statement of the documented order and validity rule; the source walk, listings and independently decoded hunks of generated trees must be strictly increasing under it.",
          "Trusted: oracle::apath_key as restatement of doc/format.md; snap + serde_json to decode hunks.", "3 C11"),
